@@ -7,7 +7,7 @@
 WT=$1; M=$2; ID=$3; PID=$4
 cd "$WT" || exit 2
 git checkout -q -- src
-cp out/$M/demo.rs examples/demo_$M.rs
+cp out/$M/demo.rs examples/demo_$M.rs 2>/dev/null
 git apply out/$M/patch.diff || { echo "patch does not apply"; exit 2; }
 T=$(cargo test --offline 2>&1 | grep -E "^test result" | head -1)
 cargo run -q --offline --example demo_$M >/tmp/demo_with.txt 2>&1; RC_WITH=$?
